@@ -60,6 +60,18 @@ func (s *Session) EnsureValid() error {
 		return fmt.Errorf("invalid beta-specific configuration: %w", err)
 	}
 
+	// Ensure that the effective configuration of each endpoint (the session
+	// configuration with the endpoint-specific configuration merged on top) is
+	// valid in the way that endpoint initialization will validate it. The
+	// endpoint-specific checks above can't do this on their own because they
+	// don't know the effective permissions mode.
+	if err := MergeConfigurations(s.Configuration, s.ConfigurationAlpha).EnsureValid(false); err != nil {
+		return fmt.Errorf("invalid merged alpha configuration: %w", err)
+	}
+	if err := MergeConfigurations(s.Configuration, s.ConfigurationBeta).EnsureValid(false); err != nil {
+		return fmt.Errorf("invalid merged beta configuration: %w", err)
+	}
+
 	// Validate the session name.
 	if err := selection.EnsureNameValid(s.Name); err != nil {
 		return fmt.Errorf("invalid session name: %w", err)
